@@ -26,6 +26,8 @@ fn kind_s(k: FrameKind) -> String {
         FrameKind::Settings => "settings".into(),
         FrameKind::WebTransport => "wt".into(),
         FrameKind::Exercise(id) => format!("ex{}", id.into_inner()),
+        #[allow(unreachable_patterns)]
+        _ => "other".into(),
     }
 }
 
@@ -45,6 +47,8 @@ fn skind_s(k: StreamKind) -> String {
         StreamKind::QPackDecoder => "qdec".into(),
         StreamKind::WebTransport => "wt".into(),
         StreamKind::Exercise(id) => format!("ex{}", id.into_inner()),
+        #[allow(unreachable_patterns)]
+        _ => "other".into(),
     }
 }
 
@@ -66,6 +70,8 @@ fn io_s(e: &bytes::IoReadError) -> &'static str {
         bytes::IoReadError::UnexpectedFin => "io:unexpected_fin",
         bytes::IoReadError::Reset => "io:reset",
         bytes::IoReadError::NotConnected => "io:not_connected",
+        #[allow(unreachable_patterns)]
+        _ => "io:other",
     }
 }
 
@@ -599,6 +605,8 @@ fn fparse_s(p: &frame::ParseError) -> &'static str {
         frame::ParseError::UnknownFrame => "unknown",
         frame::ParseError::InvalidSessionId => "invalid_sid",
         frame::ParseError::PayloadTooBig => "too_big",
+        #[allow(unreachable_patterns)]
+        _ => "other",
     }
 }
 
@@ -606,6 +614,8 @@ fn hparse_s(p: &stream_header::ParseError) -> &'static str {
     match p {
         stream_header::ParseError::UnknownStream => "unknown",
         stream_header::ParseError::InvalidSessionId => "invalid_sid",
+        #[allow(unreachable_patterns)]
+        _ => "other",
     }
 }
 
